@@ -9,19 +9,21 @@ D=$WT/MUTANTS/$M
 OUT=/verif/seeded/$P-$M
 export CARGO_NET_OFFLINE=true CARGO_TARGET_DIR=/tmp/mut-target RUST_BACKTRACE=0
 demo=$(echo "$M" | tr 'A-Z' 'a-z'); demo="demo_$demo"
+# a demonstration that is an integration test (tests/demo_mN.rs) is selected with --test
+if grep -q "^+++ b/tests/" "$D/demo.diff" 2>/dev/null; then demo="--test $demo"; fi
 mkdir -p "$OUT"
-cd "$WT" && git checkout -q -- . && git clean -fdq src 2>/dev/null
+cd "$WT" && git checkout -q -- . && git clean -fdq src tests 2>/dev/null
 # (a) demo alone on the untouched tree must pass
 git apply "$D/demo.diff" || { echo "demo.diff does not apply"; exit 2; }
-r_clean=$(cargo test --offline "$demo" 2>&1 | grep -E "^test result" | head -1)
-git checkout -q -- . && git clean -fdq src
+r_clean=$(cargo test --offline $demo 2>&1 | grep -E "^test result" | head -1)
+git checkout -q -- . && git clean -fdq src tests
 # (b) patch alone: full suite must pass
 git apply "$D/patch.diff" || { echo "patch.diff does not apply"; exit 2; }
 r_suite=$(cargo test --offline 2>&1 | grep -E "^test result" | head -1)
 # (c) patch + demo: demo must fail
 git apply "$D/demo.diff" || { echo "demo.diff does not apply on the mutant"; }
-r_mut=$(cargo test --offline "$demo" 2>&1 | grep -E "^test result" | head -1)
-git checkout -q -- . && git clean -fdq src
+r_mut=$(cargo test --offline $demo 2>&1 | grep -E "^test result" | head -1)
+git checkout -q -- . && git clean -fdq src tests
 echo "clean+demo : $r_clean"
 echo "mutant     : $r_suite"
 echo "mutant+demo: $r_mut"
